@@ -524,7 +524,7 @@ func addProvides(s *scope, name string, obj pyObject, t *core.BuildTarget) {
 				t.AddProvide(k, []core.BuildLabel{assertNotPseudoLabel(s, s.parseLabelInPackage(string(str), s.pkg))})
 				continue
 			}
-			if list, ok := v.(pyList); ok {
+			if list, ok := asList(v); ok {
 				ls := make([]core.BuildLabel, len(list))
 				for i, v := range list {
 					str, ok := v.(pyString)
